@@ -141,6 +141,9 @@ def _add_private(ds, k):
     ds.add_new((0x0019, 0x100c), 'IS', str(1000 + 50 * (k % 3)))
     ds.add_new((0x0021, 0x0010), 'LO', 'ACME')
     ds.add_new((0x0021, 0x1001), 'DS', '2.5')
+    # elements only the ignore rules keep out of the meta data (ASCII payloads would otherwise be extracted as text)
+    ds.add_new((0x6000, 0x3000), 'OW', b'OVLY')
+    ds.add_new((0x0028, 0x1201), 'OW', b'LUTR')
     ds.add_new((0x0029, 0x0010), 'LO', 'SIEMENS CSA HEADER')
     ds.add_new((0x0029, 0x1010), 'OB', _build_csa2([{'name': 'B_value', 'vr': 'IS', 'items': [str(1000 + 50 * (k % 3))]},
                                                       {'name': 'ImaCoilString', 'vr': 'LO', 'items': ['HEA;HEP']}]))
@@ -409,6 +412,7 @@ def _run_recorded(opts):
         return orig_tf(self, path, *a, **k)
 
     before = [list(core.default_key_excl_res), list(core.default_key_incl_res)]
+    hidden_before = _hidden_state()
     status, raised = None, None
     cli.glob, cli.parse_and_group, cli.stack_group = r_glob, r_pg, r_sg
     core.make_key_regex_filter, core.DicomStack.to_nifti, extract.MetaExtractor = r_mf, r_tn, r_me
@@ -429,12 +433,13 @@ def _run_recorded(opts):
         else:
             del nb.Nifti1Image.to_filename
     after = [list(core.default_key_excl_res), list(core.default_key_incl_res)]
+    hidden_after = _hidden_state()
     # files of a directory whose stack was built but never written (exception between stack_group and to_filename)
     for d in rec['dirs']:
         d['files'] = [f for f in d['files'] if f['path'] is not None]
     for d, (pat, res) in zip(rec['dirs'], rec['globs']):
         d['glob'] = pat
-    return {'before': before, 'after': after, 'status': status, 'raised': raised, 'stdout': so.getvalue(),
+    return {'before': before, 'after': after, 'hidden_before': hidden_before, 'hidden_after': hidden_after, 'status': status, 'raised': raised, 'stdout': so.getvalue(),
             'dirs': rec['dirs'], 'n_globs': len(rec['globs']), 'stack_err': rec['stack_err'], 'nifti_err': rec['nifti_err'],
             'writes': rec['writes']}
 
@@ -498,6 +503,36 @@ def _api_equivalent(opts, pristine):
     return out
 
 
+def _api_probe(probe_dir):
+    """Plain API use with every default: parse_and_stack without extractor / filter, the default extractor on
+    one file, the default filter on a few keys.  Must not depend on CLI invocations made earlier in the process."""
+    from glob import glob
+    import pydicom
+    core, cli, nit, extract, dcmmeta = _impl()
+    out = {}
+    try:
+        paths = sorted(glob(os.path.join(probe_dir, '*.dcm')))
+        with _quiet():
+            stacks = core.parse_and_stack(paths)
+            exts = []
+            for key, st in stacks.items():
+                try:
+                    nii = st.to_nifti('LAS', True)
+                    exts.append(dcmmeta.NiftiWrapper(nii).meta_ext.to_json())
+                except core.InvalidStackError:
+                    exts.append('InvalidStackError')
+            out['stacks'] = [hashlib.sha1(e.encode('utf-8')).hexdigest() for e in exts]
+            out['stack_keys'] = [sorted(json.loads(e)['global']['const'].keys()) if e != 'InvalidStackError' else None for e in exts]
+            if paths:
+                meta = extract.default_extractor(pydicom.dcmread(paths[0]))
+                out['extractor_keys'] = sorted(meta.keys())
+        out['filter'] = [bool(core.default_meta_filter(k, None)) for k in
+                         ('PatientName', 'EchoTime', 'ImagePositionPatient', 'SeriesInstanceUID', 'Foo', 'Bar', 'Rows', 'CsaImage.B_value')]
+    except Exception as e:
+        out['raised'] = '%s: %s' % (type(e).__name__, str(e)[:200])
+    return out
+
+
 def _fresh(cwd, opts, dirs):
     """The same invocation as the first thing a new interpreter does; returns the summaries of what it wrote."""
     spec = os.path.join(cwd, 'fresh_spec.json')
@@ -523,6 +558,7 @@ def _fresh_main(spec, res):
     s = json.load(open(spec))
     os.chdir(s['cwd'])
     core, cli, nit, extract, dcmmeta = _impl()
+    api_first = _api_probe('d0')          # the API, before any command-line invocation in this interpreter
     status, raised = None, None
     with _quiet() as (so, se):
         try:
@@ -531,7 +567,8 @@ def _fresh_main(spec, res):
             status = 'exit:%s' % (e.code,)
         except Exception as e:
             raised = type(e).__name__
-    out = {'status': status, 'raised': raised, 'stdout': so.getvalue(), 'files': _summarise(s['dirs'], dcmmeta)}
+    out = {'status': status, 'raised': raised, 'stdout': so.getvalue(), 'files': _summarise(s['dirs'], dcmmeta),
+           'api_first': api_first}
     json.dump(out, open(res, 'w'))
 
 
@@ -625,7 +662,7 @@ class Names:
             os.makedirs('out')
             n = 0
             for s in case['series']:
-                n = _write_series('src', n, dict(s, S=1, T=1))
+                n = _write_series('src', n, dict(s, S=1, T=1, priv=False))
             o = Names._opts(case)
             obs = _run_recorded(o)
             dest = 'out' if case.get('dest') else 'src'
@@ -753,9 +790,9 @@ class State:
             o['output_ext'] = rng.choice(['.nii', '.nii.gz'])
         if rng.random() < 0.3:
             o['dest_dir'] = 'out%d' % k
-        if rng.random() < 0.15:
+        if rng.random() < 0.3:
             o['extract_private'] = True
-        if rng.random() < 0.15:
+        if rng.random() < 0.3:
             o['disable_translator'] = rng.choice(['all', 'ALL', '0x29_0x1010', '0x29_0x1010,0x29_0x1020', '29_1020', 'zz', '0x29'])
         if rng.random() < 0.1:
             o['force_read'] = True
@@ -829,6 +866,7 @@ class State:
             open('order_EchoTime.txt', 'w').write(' 5.0 \n2.0\n\t8.0\n3.0\n')
             open('order_AcquisitionNumber.txt', 'w').write('5\n 2\n8 \n4')
             invs = []
+            api_baseline = None
             for k, o in enumerate(case['invs']):
                 out_dirs = sorted(set(['d%d' % j for j in range(len(case['dirs']))] + ['out%d' % j for j in range(5)]))
                 _clean(out_dirs)
@@ -850,18 +888,25 @@ class State:
                     api, api_err = None, '%s: %s' % (type(e).__name__, str(e)[:200])
                 obs['api_cmp'] = State._compare_api(o, obs, mine, api, api_err)
                 _clean(out_dirs)
+                # --- oracle material 1b: the plain API (all defaults) called after this invocation
+                obs['api_after'] = _api_probe('d0')
                 # --- oracle material 2: the same invocation run first in a fresh interpreter
                 # (from the second invocation of the sequence on: the first has no history inside this case)
                 if k >= 1:
                     fr = _fresh(d, o, out_dirs)
                     obs['fresh_cmp'] = State._compare_fresh(obs, mine, fr)
+                    if 'api_first' in fr:
+                        api_baseline = fr['api_first']
                 else:
                     obs['fresh_cmp'] = None
                 _clean(out_dirs)
                 obs['pristine'] = [pristine[0], pristine[1]]
                 del obs['writes']
                 invs.append(obs)
-            return {'invs': invs}
+            if api_baseline is None:          # a one-invocation case (shrinking / replay): ask a fresh interpreter anyway
+                fr = _fresh(d, dict(OPT_DEFAULT, version=True), [])
+                api_baseline = fr.get('api_first')
+            return {'invs': invs, 'api_baseline': api_baseline, 'hidden_pristine': _PRISTINE_OBJ['hidden']}
         finally:
             os.chdir(cwd0)
             shutil.rmtree(d, ignore_errors=True)
@@ -987,12 +1032,14 @@ class State:
         else:
             raise ValueError('unexpected exit status %r' % (obs['status'],))
         dname = lambda i: obs['dirs'][i]['glob'].rsplit('/', 1)[0] if i < len(obs['dirs']) else ''
-        return ('{| v_args := %s; v_lines := %s; v_stack_err := %s; v_nifti_err := %s; v_before := %s; v_after := %s; v_out := %s |}' % (
+        return ('{| v_args := %s; v_lines := %s; v_stack_err := %s; v_nifti_err := %s; v_before := %s; v_after := %s; v_dx_before := %s; '
+                'v_dx_after := %s; v_out := %s |}' % (
             _coq_args(o), clist(cpair(cstr(fn), clist(cstr(l) for l in ls)) for fn, ls in sorted(obs['lines'].items())),
             clist(cpair(cpair(cstr(dname(e[0])), cnat(e[1])), e[2]) for e in obs['stack_err']),
             clist(cpair(cpair(cstr(dname(e[0])), cnat(e[1])), e[2]) for e in obs['nifti_err']),
             cpair(clist(cstr(s) for s in obs['before'][0]), clist(cstr(s) for s in obs['before'][1])),
-            cpair(clist(cstr(s) for s in obs['after'][0]), clist(cstr(s) for s in obs['after'][1])), out))
+            cpair(clist(cstr(s) for s in obs['after'][0]), clist(cstr(s) for s in obs['after'][1])),
+            State._coq_extractor(obs['hidden_before']['dx']), State._coq_extractor(obs['hidden_after']['dx']), out))
 
     @staticmethod
     def coq_case(case, obs):
@@ -1010,6 +1057,17 @@ class State:
             if ob['after'] != ob['before']:
                 return '%s changed the module default regex lists (%d->%d exclude, %d->%d include)' % (
                     tag, len(ob['before'][0]), len(ob['after'][0]), len(ob['before'][1]), len(ob['after'][1]))
+            hp = obs.get('hidden_pristine')
+            for when, h in (('starts with', ob['hidden_before']), ('leaves behind', ob['hidden_after'])):
+                diff = [x for x in h if hp is not None and h[x] != hp[x]]
+                if diff:
+                    return '%s %s module-level state that differs from the state at import: %s (now %s, at import %s)' % (
+                        tag, when, ', '.join(diff), json.dumps(h[diff[0]])[:200], json.dumps(hp[diff[0]])[:200])
+            if obs.get('api_baseline') is not None and ob.get('api_after') != obs['api_baseline']:
+                d_ = [x for x in obs['api_baseline'] if ob['api_after'].get(x) != obs['api_baseline'][x]] or sorted(ob['api_after'])
+                return ('after %s the plain API (parse_and_stack / default_extractor / default_meta_filter with all defaults) behaves differently '
+                        'from a fresh process: %s is %s, fresh %s' % (tag, d_[0], json.dumps(ob['api_after'].get(d_[0]))[:300],
+                                                                       json.dumps(obs['api_baseline'].get(d_[0]))[:300]))
             seen = {}
             for di, dd in enumerate(ob['dirs']):
                 for f in dd['files']:
@@ -1030,7 +1088,7 @@ class State:
 
     @staticmethod
     def signature(case, obs, msg):
-        if 'module default regex lists' in (msg or ''):
+        if 'module default regex lists' in (msg or '') or 'module-level state' in (msg or '') or 'plain API' in (msg or ''):
             return 'state-leak'
         if 'dest-dir collision' in (msg or ''):
             return 'dest-dir-collision'
